@@ -1204,8 +1204,9 @@ def handle_mach_vmfault(parser, events):
         real_events = [e for e in events[1:-1] if 0x1320008 <= e.eventid <= 0x1320014]
         if real_events:
             vm_fault_real = parser.parse_event_list(real_events)
-            pid = vm_fault_real.pid
-            caller_prot = vm_fault_real.caller_prot
+            if vm_fault_real is not None:
+                pid = vm_fault_real.pid
+                caller_prot = vm_fault_real.caller_prot
     return MachVmfault(events, args[1], is_kernel, result, fault_type, pid, caller_prot)
 
 
